@@ -195,6 +195,9 @@ type World struct {
 	// FileRemotes: bare remotes reached through file:// URLs. Their LFS store
 	// is <remote>/lfs/objects, written by git-lfs's own standalone agent.
 	FileRemotes map[string]bool
+	// SSHStores: bare remotes whose LFS objects are served by the scripted ssh
+	// peer from a flat directory of files named by object id.
+	SSHStores map[string]string
 }
 
 // StepRec is one executed process.
@@ -267,11 +270,18 @@ func (w *World) StoreKey(remote string) string {
 	if w.FileRemotes[remote] {
 		return "file:" + remote
 	}
+	if d, ok := w.SSHStores[remote]; ok {
+		return "ssh:" + d
+	}
 	return "http:" + w.FrontFor(remote).Base
 }
 
 // StoreGet reads one object of the store behind a remote.
 func (w *World) StoreGet(remote, oid string) ([]byte, bool) {
+	if d, ok := w.SSHStores[remote]; ok {
+		b, err := os.ReadFile(filepath.Join(d, oid))
+		return b, err == nil
+	}
 	if w.FileRemotes[remote] {
 		b, err := os.ReadFile(ObjectPath(remote, oid))
 		return b, err == nil
@@ -285,6 +295,11 @@ func (w *World) StoreGet(remote, oid string) ([]byte, bool) {
 
 // StorePut places an object in the store behind a remote (harness set-up).
 func (w *World) StorePut(remote, oid string, data []byte) {
+	if d, ok := w.SSHStores[remote]; ok {
+		os.MkdirAll(d, 0755)
+		os.WriteFile(filepath.Join(d, oid), data, 0644)
+		return
+	}
 	if w.FileRemotes[remote] {
 		p := ObjectPath(remote, oid)
 		os.MkdirAll(filepath.Dir(p), 0755)
@@ -299,6 +314,10 @@ func (w *World) StorePut(remote, oid string, data []byte) {
 
 // StoreDelete removes an object from the store behind a remote.
 func (w *World) StoreDelete(remote, oid string) {
+	if d, ok := w.SSHStores[remote]; ok {
+		os.Remove(filepath.Join(d, oid))
+		return
+	}
 	if w.FileRemotes[remote] {
 		os.Remove(ObjectPath(remote, oid))
 		return
@@ -312,7 +331,14 @@ func (w *World) StoreDelete(remote, oid string) {
 // StoreOids lists the store behind a remote.
 func (w *World) StoreOids(remote string) []string {
 	var out []string
-	if w.FileRemotes[remote] {
+	if d, ok := w.SSHStores[remote]; ok {
+		ents, _ := os.ReadDir(d)
+		for _, e := range ents {
+			if len(e.Name()) == 64 {
+				out = append(out, e.Name())
+			}
+		}
+	} else if w.FileRemotes[remote] {
 		for o := range LocalObjects(remote) {
 			out = append(out, o)
 		}
